@@ -78,6 +78,160 @@ func tot(name string, f func(b []byte, n int) bool) {
 
 func totSame(a, b []byte) bool { return bytes.Equal(a, b) }
 
+// ---- argument shapes derived from the input (mirrored one by one in Exec/TotExec.v) ----
+
+// position of the transport_private_data length byte (ext = false) or of the adaptation-extension length byte
+// (ext = true), computed from the flags byte as adaptationfield.go does (AF.transportPrivateDataStart /
+// AF.adaptationExtensionStart in the model)
+func totAFFieldPos(p *packet.Packet, ext bool) int {
+	f := p[5]
+	pos := 6
+	if f&0x10 != 0 {
+		pos += 6
+	}
+	if f&0x08 != 0 {
+		pos += 6
+	}
+	if f&0x04 != 0 {
+		pos += 1
+	}
+	if ext && f&0x02 != 0 && pos < 188 {
+		pos += 1 + int(p[pos])
+	}
+	return pos
+}
+
+// data for SetTransportPrivateData / SetAdaptationFieldExtension: shape 0 = {1,2,3}; 1..5 = a ramp 1,2,3,.. of
+// length L, L-1, L+1, "exactly the room left", 0, where L is the length byte stored at the field's position
+func totAFData(p *packet.Packet, ext bool, shape int) []byte {
+	if shape <= 0 || shape > 5 {
+		return []byte{1, 2, 3}
+	}
+	pos := totAFFieldPos(p, ext)
+	l := 0
+	if pos < 188 {
+		l = int(p[pos])
+	}
+	end := int(p[4]) + 5
+	if end > 188 {
+		end = 188
+	}
+	room := end - pos - 1
+	if room < 0 {
+		room = 0
+	}
+	n := 0
+	switch shape {
+	case 1:
+		n = l
+	case 2:
+		n = l - 1
+		if n < 0 {
+			n = 0
+		}
+	case 3:
+		n = l + 1
+	case 4:
+		n = room
+	case 5:
+		n = 0
+	}
+	d := make([]byte, n)
+	for i := range d {
+		d[i] = byte(i + 1)
+	}
+	return d
+}
+
+// where the stuffing starts (Packet.stuffingStart_m in the model): 188 minus this is what SetPayload calls freeSpace
+func totStuffingStart(p *packet.Packet) int {
+	if p[3]&0x20 == 0 {
+		return 4
+	}
+	if p[4] == 0 {
+		return 5
+	}
+	pos := totAFFieldPos(p, false)
+	f := p[5]
+	if f&0x02 != 0 && pos < 188 {
+		pos += 1 + int(p[pos])
+	}
+	if f&0x01 != 0 && pos < 188 {
+		pos += 1 + int(p[pos])
+	}
+	return pos
+}
+
+// payload length for pkt.setpayload: n < 256 literally; 256, 257, 258 = freeSpace, freeSpace-1, freeSpace+1 (clamped to 0..300)
+func totPayloadLen(p *packet.Packet, n int) int {
+	if n < 0 {
+		return 0
+	}
+	if n < 256 || n > 258 {
+		return n % 256
+	}
+	fs := 188 - totStuffingStart(p)
+	l := fs + []int{0, -1, 1}[n-256]
+	if l < 0 {
+		l = 0
+	}
+	if l > 300 {
+		l = 300
+	}
+	return l
+}
+
+// PID list for psi.filter: n < 10000 -> {n, 256, 257}; 10000+k -> a list derived from the packets:
+// 0 {0}  1 {pid of packet 0}  2 {0, pid of packet 0}  3 {}  4 / 5 / 6 first / last / all stream PIDs of the PMT that the
+// concatenated payloads parse to (none when a payload is missing or NewPMT fails)  7 {8190} (absent)
+func totFilterPids(pk []*packet.Packet, n int) []int {
+	if n < 10000 || n > 10007 {
+		return []int{n, 256, 257}
+	}
+	pid0 := packet.Pid(pk[0])
+	var own []int
+	if n >= 10004 && n <= 10006 {
+		var pay []byte
+		ok := true
+		for _, p := range pk {
+			b, err := packet.Payload(p)
+			if err != nil {
+				ok = false
+				break
+			}
+			pay = append(pay, b...)
+		}
+		if ok {
+			if pm, err := psi.NewPMT(pay); err == nil {
+				own = pm.Pids()
+			}
+		}
+	}
+	switch n - 10000 {
+	case 0:
+		return []int{0}
+	case 1:
+		return []int{pid0}
+	case 2:
+		return []int{0, pid0}
+	case 3:
+		return []int{}
+	case 4:
+		if len(own) > 0 {
+			return []int{own[0]}
+		}
+		return []int{}
+	case 5:
+		if len(own) > 0 {
+			return []int{own[len(own)-1]}
+		}
+		return []int{}
+	case 6:
+		return append([]int{}, own...)
+	}
+	return []int{8190}
+}
+
 func init() {
 	tot("pkt.read", func(b []byte, n int) bool {
 		p := totPkt(b)
@@ -114,10 +268,7 @@ func init() {
 	})
 	tot("pkt.setpayload", func(b []byte, n int) bool {
 		p := totPkt(b)
-		if n < 0 {
-			n = 0
-		}
-		d := make([]byte, n%256)
+		d := make([]byte, totPayloadLen(p, n))
 		for i := range d {
 			d[i] = byte(i)
 		}
@@ -171,9 +322,12 @@ func init() {
 		return *p == q
 	})
 	tot("af.setters", func(b []byte, n int) bool {
+		// n = 40*shape + 20*flag + op: op selects the setter, flag forces the adaptation-field bit,
+		// shape selects the data of ops 7 and 8 (totAFData)
 		op := n % 20
+		shape := n / 40
 		p := totPkt(b)
-		if n >= 20 {
+		if (n/20)%2 == 1 {
 			p[3] |= 0x20
 		}
 		af, err := p.AdaptationField()
@@ -181,6 +335,9 @@ func init() {
 			return true
 		}
 		arg := []byte{1, 2, 3}
+		if op == 7 || op == 8 {
+			arg = totAFData(p, op == 8, shape)
+		}
 		arg0 := append([]byte{}, arg...)
 		switch op {
 		case 0:
@@ -295,6 +452,11 @@ func init() {
 			p.CurrentNextIndicator()
 			p.PIDExists(n)
 			p.IsPidForStreamWherePresentationLagsEbp(n)
+			own := append([]int{}, p.Pids()...)
+			for _, pid := range own {
+				p.PIDExists(pid)
+				p.IsPidForStreamWherePresentationLagsEbp(pid)
+			}
 			for _, e := range p.ElementaryStreams() {
 				e.MaxBitRate()
 				e.IsTTMLSubtitling()
@@ -325,6 +487,12 @@ func init() {
 			p.RemoveElementaryStreams([]int{n, 256})
 			p.Pids()
 			_ = p.String()
+			if len(own) > 0 {
+				p.RemoveElementaryStreams(own[:1])
+				p.RemoveElementaryStreams(own)
+				p.Pids()
+				_ = p.String()
+			}
 		}
 		return totSame(b, b0)
 	})
@@ -350,14 +518,23 @@ func init() {
 		for i := range pk {
 			snap[i] = *pk[i]
 		}
-		pids := []int{n, 256, 257}
+		pids := totFilterPids(pk, n)
+		pids0 := append([]int{}, pids...)
 		psi.FilterPMTPacketsToPids(pk, pids)
 		for i := range pk {
 			if snap[i] != *pk[i] {
 				return false
 			}
 		}
-		return pids[0] == n && pids[1] == 256
+		if len(pids) != len(pids0) {
+			return false
+		}
+		for i := range pids {
+			if pids[i] != pids0[i] {
+				return false
+			}
+		}
+		return true
 	})
 	tot("psi.readpat", func(b []byte, n int) bool {
 		b0 := append([]byte{}, b...)
@@ -371,6 +548,12 @@ func init() {
 	})
 	tot("psi.readpmt", func(b []byte, n int) bool {
 		b0 := append([]byte{}, b...)
+		if n == -1 { // the PID of the first packet
+			n = 0
+			if len(b) >= 3 {
+				n = int(b[1]&0x1f)<<8 | int(b[2])
+			}
+		}
 		p, err := psi.ReadPMT(bytes.NewReader(b), n)
 		if err == nil && p != nil {
 			_ = p.String()
